@@ -134,9 +134,26 @@ def run(ctx):
     else:
         d2.fail('LLE.__init__', 'init', 'a new solver does not start without a remembered solution', init, init.node)
     sv = lle.methods['solve_lle_liquid_mol']
-    g = [x for x in walk_no_nested(sv.node) if isinstance(x, ast.If) and 'self._K is not None' in src(x.test)]
-    if g:
-        d2.ok('LLE.solve_lle_liquid_mol', 'the remembered K is used as a guess only when present', sv, g[0])
+    # on every path that takes the remembered K as the starting guess, `self._K is not None` has been established (in either polarity)
+    from ..pathcond import resolved_conds, implied as _imp
+    sps, _ = run_paths(sv.node, max_paths=4000, follow_except=False)
+    g = []
+    unguarded = None
+    for p in sps:
+        uses = [e for e in p.events if e.kind == 'assign' and isinstance(e.stmt, ast.Assign) and src(e.stmt.value) == 'self._K']
+        if not uses:
+            continue
+        rc = resolved_conds(p, keep=set(sv.params))
+        a = _imp(rc, lambda t: isinstance(t, ast.Compare) and len(t.ops) == 1 and isinstance(t.ops[0], ast.IsNot) and src(t.left) == 'self._K'
+                 and src(t.comparators[0]) == 'None')
+        b = _imp(rc, lambda t: isinstance(t, ast.Compare) and len(t.ops) == 1 and isinstance(t.ops[0], ast.Is) and src(t.left) == 'self._K'
+                 and src(t.comparators[0]) == 'None')
+        if a is True or b is False:
+            g.append(uses[0].stmt)
+        else:
+            unguarded = uses[0].stmt
+    if g and unguarded is None:
+        d2.ok('LLE.solve_lle_liquid_mol', 'the remembered K is used as a guess only when present (%d paths)' % len(g), sv, g[0])
     else:
         d2.fail('LLE.solve_lle_liquid_mol', 'guess', 'remembered K used without testing that it exists', sv, sv.node)
 
